@@ -30,7 +30,11 @@ Inductive dop :=
 | DSelect (i : nat) (sel : list nat)     (* las_i[sel]: a new LasData holding the selected records *)
 | DCopy (i : nat)                        (* laspy.convert(las_i) / laspy.read(las_i.write()): a new LasData, equal contents *)
 | DEdit (i : nat) (e : dedit)            (* one public operation on las_i, in place *)
-| DWrite (i : nat).                      (* las_i.write(): the bytes; nothing changes *)
+| DWrite (i : nat)                       (* las_i.write(): the bytes; nothing changes *)
+| DCreate (f : assoc) (vl evl : list vlr) (d : fdesc) (recs : list (list Z)).
+                                         (* round 7: laspy.create() / LasData(LasHeader(..)) / laspy.read(file) while other LasData are live:
+                                            a new LasData on a NEW header object referring to a NEW format object, made from nothing that
+                                            is live (defaults included: no array, list or format object of it is an object of another one) *)
 
 Definition opt_or {A} (o : option A) (d : A) : A := match o with Some x => x | None => d end.
 
@@ -61,6 +65,10 @@ Definition derive (w : dworld) (i : nat) (f : list (list Z) -> list (list Z)) : 
       | Some (w', ha) => mkDW (dw_fmts w') (dw_hdrs w') (dw_objs w' ++ [mkLO ha (f (lo_recs o))])
       end
   end.
+
+(* a LasData made from nothing that is live: fresh format object, fresh header object *)
+Definition create (w : dworld) (f : assoc) (vl evl : list vlr) (d : fdesc) (recs : list (list Z)) : dworld :=
+  mkDW (dw_fmts w ++ [d]) (dw_hdrs w ++ [mkHO f vl evl (length (dw_fmts w))]) (dw_objs w ++ [mkLO (length (dw_hdrs w)) recs]).
 
 Definition edit_obj (w : dworld) (i : nat) (e : dedit) : dworld :=
   match nth_error (dw_objs w) i with
@@ -110,6 +118,7 @@ Section Data.
     | DCopy i => (derive w i (fun r => r), None)
     | DEdit i e => (edit_obj w i e, None)
     | DWrite i => (w, Some (write_obj w i))
+    | DCreate f vl evl d recs => (create w f vl evl d recs, None)
     end.
 
   Fixpoint drun (w : dworld) (ops : list dop) : dworld * list (result (list Z)) :=
